@@ -893,8 +893,9 @@ package larking
 //@ func fieldPath serves C09 C04 C16
 //@   witness verifWitnessQueryPaths
 //@   requires fieldDescs != nil
-//@   modifies E$protoreflect.FieldDescriptor
+//@   modifies fresh E$protoreflect.FieldDescriptor
 //@   ensures [walkable C09] FieldPathWf(result)
+//@   ensures [own-slice C09] base(result) == 0 || isfresh(result)
 //@   ensures [rooted C04 C16] result != nil ==> len(result) == len(names) && (len(names) > 0 ==> fdOwner(result[0]) == pay(old(fieldDescs)))
 //@   loop 1 invariant -1 <= rangeindex && rangeindex < len(names) && len(fds) == len(names) && fieldDescs != nil && base(fds) != 0
 //@   loop 1 invariant (rangeindex == -1 ==> fieldDescs == old(fieldDescs)) && (rangeindex >= 0 ==> fdOwner(at(fds, off(fds))) == pay(old(fieldDescs)))
@@ -965,6 +966,7 @@ package larking
 //@   assert at "fds := fieldPath(fieldDescs, keys...)" [walk C16] St(l, i + 1) == 3 && i + 1 < l.len
 //@   assert at "switch tok.typ {" [walk C16] St(l, i) == 3 && St(l, i + 1) != 0
 //@   assert at "val := next()" [walk C16] St(l, i + 1) == 9 && i + 1 < l.len
+//@   assert at "switch rule.ResponseBody {" [body-resolved C09 C16] AllSingular(m.body)
 //@   assert at `if verb == "*" {` [body-walkable C09 C16] AllSingular(m.body)
 //@   assert at `if verb == "*" {` [response-body-walkable C04 C09 C16] AllSingular(m.resp)
 //@   cover at "vars = append(vars, nxt)" [reach-variable-segments] i > 3
